@@ -145,6 +145,7 @@ inline int run_main(int argc, char **argv, std::map<std::string, Prop> &props) {
     Verdict lastV;
     bool haveFail = false;
     time_t shrink_deadline = 0;
+    bool trace_current = getenv("VERIF_TRACE_CURRENT") != nullptr && !a.stats_path.empty();
     long leak_every = getenv("VERIF_LEAKCHECK") ? atol(getenv("VERIF_LEAKCHECK")) : 0, leak_counter = 0;
     bool ok = rc::check(a.property, [&]() {
         // bound the time rapidcheck spends shrinking (large cases): once over, every further candidate "passes" unevaluated;
@@ -153,6 +154,10 @@ inline int run_main(int argc, char **argv, std::map<std::string, Prop> &props) {
         Case c = P.gen();
         c.property = a.property;
         S.current_case = c.text();
+        if (trace_current) {   // for monitors that kill the process without running our handlers (valgrind --exit-on-first-error)
+            std::ofstream cf(a.stats_path + ".current", std::ios::trunc);
+            cf << S.current_case;
+        }
         Verdict v = P.check(c);
         if (v.ok && leak_every > 0 && (++leak_counter % leak_every) == 0 && __lsan_do_recoverable_leak_check
             && __lsan_do_recoverable_leak_check() != 0)
